@@ -50,19 +50,64 @@ def summaries(g, counter=None, bound=None, bound_const=None, flag_fields=(), slo
             return _last_field(e) == bound and strip(e)[0] == 'field'
         return bound_const is not None and const_int(e) == bound_const
 
-    def cmp_of(d):
+    def lin(e, k, bd):
+        """linear reading of an integer expression on this path: ('c', c) = counter-at-entry + c, ('b', c) = bound + c"""
+        e = strip(e)
+        if is_counter(e):
+            return ('c', k)
+        if bound is not None and is_bound(e):
+            return ('b', 0)
+        if bound is None and bound_const is not None and const_int(e) is not None:
+            return ('b', const_int(e) - bound_const)
+        if e[0] == 'local' and e[1] in bd and bd[e[1]][1] == 'n':
+            return (bd[e[1]][2], bd[e[1]][3])
+        if e[0] == 'bin' and e[1].startswith(('Add', 'Sub')):
+            add = e[1].startswith('Add')
+            a, cb = lin(e[2], k, bd), const_int(e[3])
+            if a is not None and cb is not None:
+                return (a[0], a[1] + (cb if add else -cb))
+            if add:
+                a, cb = lin(e[3], k, bd), const_int(e[2])
+                if a is not None and cb is not None:
+                    return (a[0], a[1] + cb)
+            return None
+        # the payload of counter.checked_sub(c) / checked_add(c)
+        x = e
+        seen_variant = False
+        while x[0] in ('field', 'variant'):
+            seen_variant = seen_variant or x[0] == 'variant'
+            x = strip(x[1])
+        if x is not e and seen_variant and x[0] == 'call' and x[1].rsplit('::', 1)[-1] in ('checked_sub', 'checked_add') and len(x[2]) == 2:
+            a, cb = lin(x[2][0], k, bd), const_int(x[2][1])
+            if a is not None and cb is not None:
+                return (a[0], a[1] + (cb if x[1].endswith('checked_add') else -cb))
+        return None
+
+    def cmp_of(d, k=0, bd=None):
+        """(op, negated, s): the branch tests `d_entry + s  op  0` where d = counter - bound"""
+        bd = bd or {}
         d = strip(d)
         neg = False
         while d[0] == 'un' and d[1] == 'Not':
             d = strip(d[2])
             neg = not neg
+        if d[0] == 'discr':
+            # match counter.checked_sub(c) { Some(..) / None }: Some <=> counter >= c
+            x = strip(d[1])
+            if x[0] == 'call' and x[1].rsplit('::', 1)[-1] == 'checked_sub' and len(x[2]) == 2:
+                a, b = lin(x[2][0], k, bd), lin(x[2][1], k, bd)
+                if a and b and a[0] == 'c' and b[0] == 'b':
+                    return 'Ge', neg, a[1] - b[1]
+            return None
         if d[0] != 'bin' or d[1] not in FLIP:
             return None
-        a, b = strip(d[2]), strip(d[3])
-        if is_counter(a) and is_bound(b):
-            return d[1], neg
-        if is_counter(b) and is_bound(a):
-            return FLIP[d[1]], neg
+        a, b = lin(d[2], k, bd), lin(d[3], k, bd)
+        if a is None or b is None:
+            return None
+        if a[0] == 'c' and b[0] == 'b':
+            return d[1], neg, a[1] - b[1]
+        if a[0] == 'b' and b[0] == 'c':
+            return FLIP[d[1]], neg, b[1] - a[1]
         return None
 
     def pred_call(e):
@@ -77,6 +122,7 @@ def summaries(g, counter=None, bound=None, bound_const=None, flag_fields=(), slo
     def step(st, n, lab):
         lo, hi, k, pred, flags, sets, emit, other, comp, empty, bad, pops, pushes, subs, calls, bools = st
         d, v = sw_value(lab)
+        bdict = dict((b[0], b) for b in bools)
         # a branch on a boolean local that was assigned a constant / the predicate result / a mode flag on this path
         if d is not None and v in (0, 1):
             d0 = strip(d)
@@ -128,13 +174,14 @@ def summaries(g, counter=None, bound=None, bound_const=None, flag_fields=(), slo
                         flags = tuple(sorted(set(flags) | {(f, fv)}))
                     d = None
         # a `match` directly on the counter (switch on its value) when the bound is a constant
-        if d is not None and bound_const is not None and is_counter(strip(d)) and strip(d)[0] == 'field':
+        lv = lin(d, k, bdict) if (d is not None and bound_const is not None and strip(d)[0] in ('field', 'local')) else None
+        if lv is not None and lv[0] == 'c':
             if isinstance(v, int):
-                p0 = v - bound_const - k
+                p0 = v - bound_const - lv[1]
                 lo, hi = _meet(lo, hi, p0, p0)
             elif isinstance(v, tuple) and v and v[0] == 'not':
                 for ex in v[1]:
-                    p0 = ex - bound_const - k
+                    p0 = ex - bound_const - lv[1]
                     if lo is not None and lo == p0:
                         lo = p0 + 1
                     if hi is not None and hi == p0:
@@ -143,17 +190,17 @@ def summaries(g, counter=None, bound=None, bound_const=None, flag_fields=(), slo
                 return None
             d = None
         if d is not None and v in (0, 1):
-            c = cmp_of(d)
+            c = cmp_of(d, k, bdict)
             if c:
-                op, neg = c
+                op, neg, sft = c
                 truth = (v == 1) != neg
                 if (op, truth) in REL:
                     l2, h2 = REL[(op, truth)]
-                    lo, hi = _meet(lo, hi, _shift(l2, k), _shift(h2, k))
+                    lo, hi = _meet(lo, hi, _shift(l2, sft), _shift(h2, sft))
                     if lo is not None and hi is not None and lo > hi:
                         return None
                 elif (op, truth) in (('Eq', False), ('Ne', True)):
-                    p = -k   # d_now != 0  <=>  d_entry != -k : shrink the interval when the excluded point is an end point
+                    p = -sft   # d_now != 0  <=>  d_entry != -k : shrink the interval when the excluded point is an end point
                     if hi is not None and hi == p:
                         hi = p - 1
                     if lo is not None and lo == p:
@@ -197,9 +244,12 @@ def summaries(g, counter=None, bound=None, bound_const=None, flag_fields=(), slo
                 r0 = strip(r0[2])
                 par ^= 1
             nb = None
-            cm = cmp_of(n['rhs'])
+            cm = cmp_of(n['rhs'], k, bdict)
+            ln = lin(n['rhs'], k, bdict)
             if cm:
-                nb = (lid, 'm', cm[0], cm[1], k)      # a comparison of the counter with the bound, evaluated after k increments
+                nb = (lid, 'm', cm[0], cm[1], cm[2])      # a comparison of the counter with the bound, evaluated here (shift cm[2])
+            elif ln is not None:
+                nb = (lid, 'n', ln[0], ln[1])            # a snapshot of the counter (or the bound) plus a constant
             elif const_bool(r0) is not None:
                 nb = (lid, 'c', (1 if const_bool(r0) else 0) ^ par)
             elif r0[0] == 'call' and pred_call(r0) is not None:
@@ -224,9 +274,13 @@ def summaries(g, counter=None, bound=None, bound_const=None, flag_fields=(), slo
             if counter is not None and f == counter and strip(n['lhs'])[0] == 'field':
                 r = strip(n['rhs'])
                 dk = None
-                for x in _walk(r):
-                    if x[0] == 'bin' and x[1].startswith(('Add', 'Sub')) and is_counter(x[2]) and const_int(x[3]) == 1:
-                        dk = 1 if x[1].startswith('Add') else -1
+                ln = lin(r, k, bdict)
+                if ln is not None and ln[0] == 'c' and abs(ln[1] - k) == 1:
+                    dk = ln[1] - k
+                else:
+                    for x in _walk(r):
+                        if x[0] == 'bin' and x[1].startswith(('Add', 'Sub')) and is_counter(x[2]) and const_int(x[3]) == 1:
+                            dk = 1 if x[1].startswith('Add') else -1
                 if dk is None:
                     bad = 'counter written by something other than +-1'
                 else:
